@@ -69,6 +69,8 @@ type parserState struct {
 	// querySatisfied is true if both path and value of any queries passed to
 	// consumeAny are satisfied.
 	querySatisfied bool
+	// complete is true if the outermost value was parsed up to its end.
+	complete bool
 }
 
 // query holds information about a combination of {"key": "val"} that we're trying
@@ -123,6 +125,10 @@ func Parse(queryType string, raw []byte) (parsed, inspected, firstToken int, que
 
 	qs := queries[queryType]
 	got := p.consumeAny(raw, qs, 0)
+	if !p.complete {
+		// The outermost value did not reach its end, so nothing was parsed.
+		got = 0
+	}
 	return got, p.ib, p.firstToken, p.querySatisfied
 }
 
@@ -131,6 +137,7 @@ func (p *parserState) reset() {
 	p.currPath = p.currPath[0:0]
 	p.firstToken = TokInvalid
 	p.querySatisfied = false
+	p.complete = false
 }
 
 func (p *parserState) consumeSpace(b []byte) (n int) {
@@ -430,7 +437,15 @@ func (p *parserState) consumeAny(b []byte, qs []query, lvl int) (n int) {
 		p.querySatisfied = true
 	}
 	if rv <= 0 {
+		// A nested value which failed to parse must fail its container too.
+		// Only the outermost call reports how far it got.
+		if lvl > 0 {
+			return 0
+		}
 		return n
+	}
+	if lvl == 0 {
+		p.complete = true
 	}
 	n += rv
 	n += p.consumeSpace(b[n:])
